@@ -19,9 +19,12 @@
     several runs of one message, a substituting one runs other messages.
     WHERE a holder comes from and WHEN a batch context is made are parameters (`Impl`), because this
     is exactly what a faulty implementation gets wrong: the Go code of today is `Impl.go`
-    (`newBatchContext` builds `&batchData{…}`, a new object; called once, by `HandleRequest`, before
-    the message chain); pooled / connection-level / package-level holders are `Alloc.reuse`,
-    `Alloc.global`. The engine `placemw` determines the parameters of the real code by probing it.
+    (`newBatchContext` builds `&batchData{…}`, a new object; it is called by `HandleRequest` before
+    the message chain — that context is what the message middlewares see — AND, since 4b5c841, by the
+    core handler `handleRequest` for every message it executes — that one is what the operation
+    handlers see); the code before 4b5c841 is `Impl.entryOnly` (only `HandleRequest` made one);
+    pooled / connection-level / package-level holders are `Alloc.reuse`, `Alloc.global`.
+    The engine `placemw` determines the parameters of the real code by probing it.
 -/
 namespace Kmip.Placeholder
 
@@ -104,12 +107,15 @@ structure Impl where
   atCore  : Bool
   deriving Repr, DecidableEq, Inhabited
 
-/-- kmipserver/router.go at /repo HEAD: `HandleRequest` calls `newBatchContext` before
-    `exec.nextFrom(0)(ctx, req)`; `handleRequest` does not. -/
-def Impl.go : Impl := { alloc := .fresh, reset := false, atEntry := true, atCore := false }
+/-- kmipserver/router.go at /repo HEAD (since 4b5c841): `HandleRequest` calls `newBatchContext` before
+    `exec.nextFrom(0)(ctx, req)` (the context the message middlewares are given), and the core handler
+    `handleRequest` calls it again, first thing, with the message it is given (the context the
+    operation handlers are given). -/
+def Impl.go : Impl := { alloc := .fresh, reset := false, atEntry := true, atCore := true }
 
-/-- the proposed repair: `handleRequest` makes its own batch context too. -/
-def Impl.fixed : Impl := { alloc := .fresh, reset := false, atEntry := true, atCore := true }
+/-- the code before 4b5c841: only `HandleRequest` made a batch context; all the runs of the core
+    handler caused by one call shared it (finding `place:run-not-empty-at-start`, repaired). -/
+def Impl.entryOnly : Impl := { alloc := .fresh, reset := false, atEntry := true, atCore := false }
 
 /-- `newBatchContext(parent, hdr)`: the heap afterwards and the context returned. -/
 def newBatchContext (impl : Impl) (heap : List Val) (parent : Ctx) : List Val × Ctx :=
@@ -220,8 +226,8 @@ def prog1 (p : Parent) (as : List PAct) : List GStep := prog p [⟨[], as⟩]
     is `""` when the run starts. -/
 def soloRuns (runs : List Run) : List Val := (runs.map fun rn => solo rn.acts).flatten
 
-/-- what the Go code of today gives instead: the runs of ONE call of `HandleRequest` share a holder
-    (but nothing is shared with other calls). -/
+/-- what the code before 4b5c841 (`Impl.entryOnly`) gave instead: the runs of ONE call of
+    `HandleRequest` share a holder (but nothing is shared with other calls). -/
 def sharedRuns (runs : List Run) : List Val := solo (runs.map (·.acts)).flatten
 
 /-- `Interleaving progs sched`: `sched` is a merge of the step sequences `progs` (request `i` runs
